@@ -402,10 +402,10 @@ class Gen:
             return ("ordering",)
         if c < 0.42 and self.opaques:
             return ("obox", self.pick(self.opaques).name, self.chance(0.5))
+        if c < 0.56 and self.chance(0.12):
+            return ("opt", ("unit",), "std")          # Option<()>: "did it work" returns; not subject to the `option` feature
         if c < 0.56 and p["option"]:
             inner = self.simple_ret_payload(allow_box=False)
-            if self.chance(0.12):
-                inner = ("unit",)          # Option<()>: "did it work" returns
             if inner[0] == "struct" and self.find_struct(inner[1]).out and False:
                 pass
             sp = "dip" if (p["dip_spellings"] and self.chance(0.35)) else "std"
